@@ -245,11 +245,11 @@ impl Ctx {
     pub fn san(&self) -> bool {
         self.build == "san"
     }
-    /// A case count by tier, scaled: quick x2, thorough x6 relative to the numbers written at the call
+    /// A case count by tier, scaled: quick x8, thorough x6 relative to the numbers written at the call
     /// site (those were sized when the monitors were first built; the machine has room for more).
     pub fn count(&self, quick: u64, thorough: u64) -> u64 {
         if self.quick() {
-            quick * 2
+            quick * 8
         } else {
             thorough * 6
         }
